@@ -1081,6 +1081,34 @@ def u_paths(ctx):
                     ctx.violation("overwrite-keeps-stale-file", {**desc, "stale": same(p1, back), "files_after_first_save": files1,
                                                                  "files_after_second_save": files2})
 
+        # 4c. the same file reached through two spellings: load through one, overwrite through the other, load again
+        for rep in range(ctx.n(2, 8)):
+            C, spec, kw = classes[rep % len(classes)]
+            idx += 1
+            env, p1 = mk(C, spec, kw, idx)
+            _, p2 = mk(C, spec, kw, idx + 40_000)
+            rel = os.path.join(f"xs{idx}", "ckpt", "latest")          # relative to the scratch cwd
+            absolute = os.path.join(T.root, rel)
+            dotted = os.path.join(T.root, f"xs{idx}", "ckpt", "..", "ckpt", "latest")
+            pairs_ = [(rel, absolute), (absolute, rel), (rel, absolute + ".eqx"), (dotted, absolute)][rep % 4]
+            save_sp, load_sp = pairs_
+            desc = {"class": C.__name__, "save_spelling": save_sp.replace(T.root, "<root>"), "load_spelling": load_sp.replace(T.root, "<root>"),
+                    "rep": rep, "what": "overwrite-through-another-spelling"}
+            ctx.case(desc, nontrivial=True, cls="paths/overwrite-cross-spelling")
+            try:
+                _save(p1, save_sp, {}, jit=False)
+                first = load(C, env, kw, load_sp)
+                _save(p2, save_sp, {}, jit=False)
+                back = load(C, env, kw, load_sp)
+            except Exception as e:
+                ctx.violation("overwrite-raised", {**desc, "got": _err(e)})
+                continue
+            ctx.monitor("overwrite_cross_spelling_cases")
+            if not same(p1, first):
+                ctx.violation("overwrite-keeps-stale-file", {**desc, "stage": "first load"})
+            elif not same(p2, back):
+                ctx.violation("overwrite-keeps-stale-file", {**desc, "stale": same(p1, back), "stage": "load after the second save"})
+
         # 5. observations only: other spelling at load time
         obs = {}
         C, spec, kw = classes[0]
@@ -1100,6 +1128,7 @@ def u_paths(ctx):
     ctx.require("two_name_cases", 4)
     ctx.require("overwrite_cases", 2)
     ctx.require("overwrite_dotted_new_dir_cases", 4)
+    ctx.require("overwrite_cross_spelling_cases", 2)
     for sp in SPELLINGS:
         ctx.require(f"spelling/{sp}", 1)
 
